@@ -1077,3 +1077,87 @@ def finalize_reset(ctx):
                                   'accumulating: the next block/member carries a check over all previous units as well' % fld)
     if n == 0:
         ctx.anchor_missing('finalize calls in container code')
+
+
+# --------------------------------------------------------------------------- SCAN-TO-ZERO
+
+def _ok_returning(f, start):
+    """True if a return block reached from `start` can carry an Ok value: some block on the way assigns
+    _0 := Result::Ok{..} (or returns a callee's result unchanged)."""
+    region = f.reach_from([start])
+    for b in region:
+        for s in f.blocks[b]['stmts']:
+            if s['k'] == 'assign' and s['lhs']['l'] == 0 and not s['lhs']['p'] and s['rv']['r'] == 'agg' and \
+                    s['rv'].get('kind') == 'adt' and s['rv'].get('variant_name') == 'Ok':
+                return True
+    return False
+
+
+@rule('SCAN-TO-ZERO', ['C04', 'C12'], floor=1)
+def scan_to_zero(ctx):
+    """A container scan that walks a position down to zero (`while pos > 0 { ..; pos = start_of_unit }`)
+    accounts for every byte of the input: the only exit of the loop that may continue to a successful
+    return is the one taken when the position has reached zero. Any other exit towards success leaves a
+    prefix of the file unexamined (data in front of the first recognised unit is silently dropped)."""
+    F = ctx.facts
+    n = 0
+    for f in F.fns:
+        if f.kind == 'closure' or not f.loops():
+            continue
+        prov = None
+        for h, body in f.loops().items():
+            t = f.blocks[h]['term']
+            if t['k'] != 'switch':
+                continue
+            prov = prov or Prov(f)
+            cond = prov.operand(t['discr'], 0, '%d:T' % h)
+            nc = norm_cmp(cond, True) if cond[0] in ('bin', 'un') else None
+            # pos > 0  (normalised: 0 < pos) or pos != 0
+            v = None
+            if nc and nc[0] == 'Lt' and nc[1][0] == 'const' and nc[1][2] == 0 and nc[2][0] == 'local':
+                v = nc[2][1]
+            if nc and nc[0] == 'Ne' and nc[2][0] == 'const' and nc[2][2] == 0 and nc[1][0] == 'local':
+                v = nc[1][1]
+            if v is None or 'u64' not in f.local_ty(v) and 'usize' not in f.local_ty(v):
+                continue
+            # the variable is re-assigned inside the loop from a subtraction (walking down)
+            down = False
+            for (bi, si, k, node) in f.whole_defs(v):
+                if bi in body and k == 'assign':
+                    e = prov.rvalue(node['rv'], 0, '%d:%d' % (bi, si))
+                    if any(x[0] == 'bin' and x[1].startswith('Sub') for x in expr_walk(e)):
+                        down = True
+            if not down:
+                continue
+            # a position in a seekable source: initialised (outside the loop) from the result of a seek
+            from_seek = False
+            for (bi, si, k, node) in f.whole_defs(v):
+                if bi not in body and k == 'assign':
+                    e0 = prov.rvalue(node['rv'], 0, '%d:%d' % (bi, si))
+                    if any(x[0] == 'call' and x[1].split('::')[-1] == 'seek' for x in expr_walk(e0)):
+                        from_seek = True
+            if not from_seek:
+                continue
+            e = switch_edges(f, h)
+            if e is None:
+                continue
+            exit_edge = [w for w in e if w not in body]
+            n += 1
+            key = '%s:scan-of-%s' % (f.key, f.local_name(v))
+            bad = []
+            for u in sorted(body):
+                for w in f.succs(u):
+                    if w in body or f.blocks[w]['cleanup']:
+                        continue
+                    if u == h and w in exit_edge:
+                        continue
+                    if _ok_returning(f, w):
+                        bad.append((u, w))
+            if bad:
+                ctx.violation(key, f.loc(bad[0][0]), 'the scan leaves its loop at %s while `%s` may still be above zero and the function can '
+                              'then return Ok: the bytes in front of that position are never examined (a damaged or foreign prefix, '
+                              'e.g. the remnant of a deleted member, is silently ignored)' % (f.loc(bad[0][0]), f.local_name(v)))
+            else:
+                ctx.ok(key, f.loc(h), 'every exit other than `%s == 0` ends in an error' % f.local_name(v))
+    if n == 0:
+        ctx.anchor_missing('backward container scan loop')
